@@ -36,4 +36,20 @@ mod kani_h {
     }
     off_harness!(c26_calculate_offset_1, 1); off_harness!(c26_calculate_offset_2, 2);
     off_harness!(c26_calculate_offset_3, 3); off_harness!(c26_calculate_offset_4, 4);
+    // CodeRange::contains: for codes of the range's own length, slice comparison (lexicographic) is numeric comparison of the
+    // big-endian values; codes of another length are never contained. Complete for 1..4-byte codes (symbolic [u8; n]).
+    macro_rules! contains_harness { ($name:ident, $n:expr) => {
+        #[kani::proof]
+        #[kani::unwind(6)]
+        fn $name() {
+            let s: [u8; $n] = kani::any(); let e: [u8; $n] = kani::any(); let c: [u8; $n] = kani::any();
+            let r = CodeRange { start: s.to_vec(), end: e.to_vec() };
+            assert!(r.contains(&c) == (be(&s) <= be(&c) && be(&c) <= be(&e)));
+            // a shorter or longer code is outside every range of this length
+            let longer: [u8; $n + 1] = kani::any();
+            assert!(!r.contains(&longer));
+            assert!(!r.contains(&c[..$n - 1]));
+        }
+    }}
+    contains_harness!(c26_contains_1, 1); contains_harness!(c26_contains_2, 2); contains_harness!(c26_contains_3, 3); contains_harness!(c26_contains_4, 4);
 }
